@@ -147,16 +147,7 @@ func runProbes() {
 	}
 	probes = append(probes, pairProbe(idEvalBigNum, []string{"EVAL", "return 1e300", "0"}), pairProbe(idEvalBigNum, []string{"EVAL", "return {-1e19, 2^63}", "0"}),
 		pairProbe(idEvalErrOK, []string{"EVAL", "return tile38.error_reply('bad')", "0"}), pairProbe(idEvalErrOK, []string{"EVAL", "return tile38.call", "0"}))
-	for _, p := range probes {
-		if p.reproduces {
-			switch p.id {
-			case idEvalBigNum:
-				excl.bigNum = true
-			case idEvalErrOK:
-				excl.errTop = true
-			}
-		}
-	}
+	// both are repaired (ee99fc4, 1823414): plain regression probes, nothing is excluded
 	probes = append(probes, crashProbe(idCrashNearbyBuffer, [][]string{{"SET", "k", "a", "POINT", "1", "2"}, {"NEARBY", "k", "BUFFER", "1", "POINT", "1", "2"}}))
 	exclNearbyBuffer = probes[len(probes)-1].reproduces
 	exclNonFinite = excl.nonFinite
@@ -328,12 +319,6 @@ func newG(rt *rapid.T, c *ev.Collector, ns gen.Names) *G {
 	}
 	if exclClientNaN {
 		c.Excluded(idClientListNaN)
-	}
-	if ex.errTop {
-		c.Excluded(idEvalErrOK)
-	}
-	if ex.bigNum {
-		c.Excluded(idEvalBigNum)
 	}
 	return &G{t: rt, ns: ns, nonFinite: !ex.nonFinite, evalNonFinite: !ex.evalNonFinite, oddKeys: !ex.oddKeys, errTop: !ex.errTop, bigNum: !ex.bigNum,
 		noLineAreas: ev.KnownActive(idHangLineString), onExcluded: c.Excluded}
